@@ -45,8 +45,9 @@ def build(x):
     kind = x[0]
     evs = []
     if kind == "E":
-        for p in x[1:]:
-            c = ce.Chronon(int(p[0]) / TICK)
+        for i, p in enumerate(x[1:]):
+            # control points with float durations and (every third one) ratio durations: an envelope of mixed duration classes
+            c = ce.Chronon(Fraction(int(p[0]), TICK) if i % 3 == 1 else int(p[0]) / TICK)
             c.value = num(p[1])
             c.curve_shape = num(p[2])
             evs.append(c)
@@ -55,8 +56,11 @@ def build(x):
         # the documented constructor: a list of [absolute time, bpm, curve shape] points with plain numbers
         # (the point-list route goes through FlexTempo's own parameter normalisation)
         pts, t0 = [], 0
-        for p in x[1:]:
-            pts.append([t0 / TICK, num(p[1]), num(p[2])])
+        for i, p in enumerate(x[1:]):
+            # every third time as a Fraction - except on a repeated time (the constructor compares the raw numbers, and the
+            # double nearest to a decimal is not the decimal: a jump has to be written with one and the same number)
+            alone = int(p[0]) != 0 and (i == 0 or int(x[i][0]) != 0)
+            pts.append([Fraction(t0, TICK) if i % 3 == 2 and alone else t0 / TICK, num(p[1]), num(p[2])])
             t0 += int(p[0])
         return cp.FlexTempo(pts)
     if kind == "T":
@@ -149,10 +153,30 @@ from mutwo import core_converters as cc  # noqa: E402
 C_, S_, P_ = ce.Chronon, ce.Consecution, ce.Concurrence
 
 
+_ALL_RATIO = [False]
+
+
+def all_ratio(x):
+    """deterministic per tree: a quarter of the trees have ratio durations on every leaf"""
+    def total(t):
+        return int(t[1]) if t[0] == "L" else sum(total(k) for k in t[3:])
+    return (total(x) // 7) % 4 == 0
+
+
+def build_tree_top(x):
+    _ALL_RATIO[0] = all_ratio(x)
+    try:
+        return build_tree(x)
+    finally:
+        _ALL_RATIO[0] = False
+
+
 def build_tree(x):
     """M1 syntax: (L d l) | (S tag tempo kids...) | (P tag tempo kids...); tempo ids ignored here"""
     if x[0] == "L":
-        c = C_(int(x[1]) / TICK)
+        # every fifth label is a leaf with a ratio duration (as in the M1 runner); a quarter of the trees are written in
+        # ratios throughout (decided by the tree itself: see all_ratio)
+        c = C_(Fraction(int(x[1]), TICK) if (int(x[2]) % 5 == 2 or _ALL_RATIO[0]) else int(x[1]) / TICK)
         c.name = int(x[2])
         return c
     cls = S_ if x[0] == "S" else P_
@@ -227,7 +251,7 @@ def run_convert(case):
     out = ["ok"]
     flags = []
     for tx in case[2:]:
-        src = build_tree(tx)
+        src = build_tree_top(tx)
         before = full_snap(src)
         r = conv.convert(src)
         out.append(leaf_durs(r))
@@ -325,6 +349,32 @@ def run_metrize(case):
     again = cc.EventToMetrizedEvent().convert(r)
     if leaf_durs(again) != leaf_durs(r) or not neutral(again):
         flags.append("not-idempotent")
+    # second life of the same source: its constant tempi are edited in place (bpm doubled, a supported edit - see
+    # reset_tempo / the bpm setters), then it is metrized again: every leaf below an edited node is twice as fast
+    try:
+        edited = []
+
+        def walk(n, factor):
+            tp = n.tempo
+            if type(tp) is cp.DirectTempo:
+                tp.bpm = tp.bpm * 2
+                factor = None if factor is None else factor * 2
+            elif isinstance(tp, cp.FlexTempo):
+                factor = None           # below a trajectory the expectation is not a plain factor: not checked here
+            if isinstance(n, C_):
+                edited.append(factor)
+                return
+            for c in n:
+                walk(c, factor)
+
+        walk(src, 1)
+        r2 = cc.EventToMetrizedEvent().convert(src)
+        for f, d1, d2 in zip(edited, leaf_durs(r), leaf_durs(r2)):
+            if f is not None and abs(fl(d2) * f - fl(d1)) > 1e-9 * max(1.0, fl(d1)) + 4e-9:
+                flags.append("stale-after-editing-a-tempo-in-place")
+                break
+    except Exception as exc:  # noqa
+        flags.append("second-conversion-raised-" + type(exc).__name__)
     return ["ok", leaf_durs(r), ["flags"] + sorted(set(flags))]
 
 
